@@ -523,7 +523,7 @@ func (env *simEnv) exec(client, idx int, op Op) (rec Rec) {
 	return rec
 }
 
-// restart: SaveCache -> Close -> downtime (op.Dur) -> a new cache of the same configuration ->
+// restart: Wait -> SaveCache -> Close -> downtime (op.Dur) -> a new cache of the same configuration ->
 // LoadCache through reads of op.N bytes. op.Cost in 1..99: the process "crashed" while saving and
 // only that percentage of the stream is on disk (LoadCache then fails; whatever it had restored
 // before the error stays). Later calls of every client go to the new cache; calls in flight
@@ -533,10 +533,14 @@ func (env *simEnv) exec(client, idx int, op Op) (rec Rec) {
 func (env *simEnv) restart(op Op, rec *Rec) {
 	rd, old := env.rd, env.api
 	disk := newSimDisk()
+	begin := simrt.Stamp()
+	// a graceful restart: pending writes are drained first (the round trip is stated for a quiescent
+	// cache; Persist walks the policy lists, so a Delete whose event is still queued would be saved)
+	old.wait()
 	if err := old.save(uint64(op.Key), disk.writer(0)); err != nil {
 		rec.Err = "save: " + err.Error()
 	}
-	rs := RestartRec{SaveSeq: simrt.Stamp(), SaveT: simrt.Now()}
+	rs := RestartRec{BeginSeq: begin, SaveSeq: simrt.Stamp(), SaveT: simrt.Now()}
 	old.closeF()
 	if op.Cost > 0 && op.Cost < 100 {
 		simrt.Fault("restart.torn-stream")
